@@ -80,11 +80,12 @@ its end (`Src.ReplDom`; multi-byte text, any order, overlap, `end < start`): eve
 theorem c17_source_total (s : Src) (h : s.ReplDom) : s.srcC = some s.src := Src.srcC_eq s h
 
 /-- **streaming a tree without CachedSource cannot trap in the checked parts** (raw leaves, map-driven leaves at any depth
-under ConcatSource / ReplaceSource), any store; `streamC` runs ConcatSource with the crate's saturating column addition (fix F16),
+under ConcatSource / ReplaceSource), any store, with (`ovf = true`, a build with overflow checks: ConcatSource's `u32` bookkeeping
+checked) or without overflow checks; `streamC` runs ConcatSource with the crate's saturating column addition (fix F16),
 and `s.NoSat o` says no ConcatSource node of the tree overflows or saturates.  PARTIAL: OriginalSource's tokenizer, the combined-map lookup and
 the position bookkeeping of ReplaceSource are not restated in checked form (they pass through the total model; K4 lives there). -/
-theorem c17_tree_stream_total_partial (s : Src) (o : Opts) (σ : Store) (hn : s.NoCached) (h : s.SizeOK) (hs : s.NoSat o) :
-    s.streamC o σ = some (s.stream o σ) := Src.streamC_eq s o σ hn h hs
+theorem c17_tree_stream_total_partial (ovf : Bool) (s : Src) (o : Opts) (σ : Store) (hn : s.NoCached) (h : s.SizeOK) (hs : s.NoSat o) :
+    s.streamC ovf o σ = some (s.stream o σ) := Src.streamC_eq ovf s o σ hn h hs
 
 /-- **ConcatSource cannot trap and is the model's ConcatSource** on children that report true positions (C02) and whose texts
 total less than 2 GiB: the checked stream — `mapping.generated_line + current_line_offset`, `current_line_offset + 1`,
@@ -101,19 +102,19 @@ theorem c17_concat_saturation_free (final : Bool) (cs : List SResult) (hp : ∀ 
 
 /-- **normal mode, trees in the domain of C02**: the checked tree stream — checked splitters, the crate's saturating ConcatSource —
 is the model's stream: nothing traps and nothing saturates -/
-theorem c17_tree_stream_total_normal (s : Src) (c : Bool) (σ : Store) (hn : s.NoCached) (hsz : s.SizeOK) (hw : s.WF)
-    (hp : s.PosHyp c) (hh : s.HalfOK) : s.streamC ⟨c, false⟩ σ = some (s.stream ⟨c, false⟩ σ) :=
-  Src.streamC_eq s ⟨c, false⟩ σ hn hsz (Src.noSat_normal s c hn hw hp hh)
+theorem c17_tree_stream_total_normal (ovf : Bool) (s : Src) (c : Bool) (σ : Store) (hn : s.NoCached) (hsz : s.SizeOK) (hw : s.WF)
+    (hp : s.PosHyp c) (hh : s.HalfOK) : s.streamC ovf ⟨c, false⟩ σ = some (s.stream ⟨c, false⟩ σ) :=
+  Src.streamC_eq ovf s ⟨c, false⟩ σ hn hsz (Src.noSat_normal s c hn hw hp hh)
 
 /-- … and it does differ beyond `u32` (a chunk at column `u32::MAX` behind a one-byte sibling) -/
 example : Chk.concatStreamS false [⟨[.chunk (some [97]) ⟨1, 0, none⟩], ⟨1, 1⟩⟩, ⟨[.chunk (some []) ⟨1, 4294967295, none⟩], ⟨1, 1⟩⟩]
     ≠ concatStream false [⟨[.chunk (some [97]) ⟨1, 0, none⟩], ⟨1, 1⟩⟩, ⟨[.chunk (some []) ⟨1, 4294967295, none⟩], ⟨1, 1⟩⟩] := by decide
 
 /-- … and a CachedSource answering from its cache replays whatever map an earlier call stored through the same splitters -/
-theorem c17_cached_replay_total (id : Nat) (inner : Src) (o : Opts) (σ : Store) (x : Option SMap) (hx : σ.get? (id, o) = some x)
+theorem c17_cached_replay_total (ovf : Bool) (id : Nat) (inner : Src) (o : Opts) (σ : Store) (x : Option SMap) (hx : σ.get? (id, o) = some x)
     (hlen : inner.src.length + 2 < 2 ^ 32) (hm : ∀ m, x = some m → m.mappings.length + 1 < 2 ^ 32) :
-    (Src.cached id inner).streamC o σ = some ((Src.cached id inner).stream o σ) :=
-  Src.cached_replayC_eq id inner o σ x hx hlen hm
+    (Src.cached id inner).streamC ovf o σ = some ((Src.cached id inner).stream o σ) :=
+  Src.cached_replayC_eq ovf id inner o σ x hx hlen hm
 
 /-- the checked functions do trap outside the domain (so the theorems are not vacuous): a replacement inside `é`, … -/
 example : Chk.replaceSourceC [195, 169] [⟨1, 1, [120], none, 1⟩] = none := by decide
